@@ -7,7 +7,9 @@ package c20
 //	refused                                        -> fine
 //	relayed, consistent with the chain, as asked   -> fine (only fields no header commits to were changed)
 //	relayed, consistent, but about another object  -> "substitution" (answer about another verified object; counted,
-//	                                                  not a violation of C20 as worded: it IS consistent with a verified header)
+//	                                                  not a violation of C20 as worded: it IS consistent with a verified
+//	                                                  header and carries its own height / hash / key; an honest application
+//	                                                  may answer a query from another height than requested and say so)
 //	relayed, NOT consistent with the chain         -> VIOLATION
 
 import (
@@ -96,9 +98,15 @@ func knownFor(method, field string) string {
 		if field == "last_commit" {
 			return idLastCommit
 		}
+	case "BlockSearch":
+		return idBlockSearch
 	case "BlockchainInfo":
 		if field == "meta.block_id.parts" {
 			return idBlockIDParts
+		}
+	case "ABCIQuery":
+		if field == "height" || field == "value" || field == "key" {
+			return idEmptyRoot // signature checked by the caller: only forged answers against an EMPTY trusted app hash
 		}
 	case "BlockResults":
 		if field == "height" || field == "panic" {
@@ -171,6 +179,13 @@ func (r *lieRun) try(method string, l lie, honest string, call func() (interface
 	case v.inc != nil:
 		lib.Case(testF, lib.FP(method, l.name, "ACCEPT", v.inc.field), true, "falsified:"+method+":ACCEPTED-INCONSISTENT", tag+":ACCEPTED-INCONSISTENT")
 		id := knownFor(method, v.inc.field)
+		if id == idEmptyRoot {
+			// signature of that finding: the header the answer was verified against has an EMPTY app hash
+			rq, ok := ret.(*ctypes.ResultABCIQuery)
+			if b := r.w.chain.Blocks[rq.Response.Height+1]; !ok || b == nil || len(b.AppHash) != 0 {
+				id = ""
+			}
+		}
 		if id != "" && lib.IsKnown(id) {
 			lib.ObservedKnown(id)
 			lib.ExcludedByKnown(id)
@@ -269,6 +284,96 @@ func (w *world) blockLies(t *rapid.T, h int64) []lie {
 			b.Evidence.Evidence = nil
 			return true
 		}},
+		{"evidence.swap", func(b *types.Block) bool {
+			ev := b.Evidence.Evidence
+			if len(ev) < 2 {
+				return false
+			}
+			ev[0], ev[1] = ev[1], ev[0]
+			return true
+		}},
+		{"evidence.duplicate", func(b *types.Block) bool {
+			if len(b.Evidence.Evidence) == 0 {
+				return false
+			}
+			b.Evidence.Evidence = append(b.Evidence.Evidence, b.Evidence.Evidence[0])
+			return true
+		}},
+		// single fields INSIDE a piece of evidence
+		{"evidence.dv.total_voting_power", onDV(func(e *types.DuplicateVoteEvidence) bool { e.TotalVotingPower++; return true })},
+		{"evidence.dv.validator_power", onDV(func(e *types.DuplicateVoteEvidence) bool { e.ValidatorPower++; return true })},
+		{"evidence.dv.timestamp", onDV(func(e *types.DuplicateVoteEvidence) bool { e.Timestamp = e.Timestamp.Add(time.Nanosecond); return true })},
+		{"evidence.dv.vote_a.timestamp", onDV(func(e *types.DuplicateVoteEvidence) bool {
+			e.VoteA.Timestamp = e.VoteA.Timestamp.Add(time.Nanosecond)
+			return true
+		})},
+		{"evidence.dv.vote_b.signature", onDV(func(e *types.DuplicateVoteEvidence) bool { e.VoteB.Signature = flip(e.VoteB.Signature); return true })},
+		{"evidence.dv.vote_b.round", onDV(func(e *types.DuplicateVoteEvidence) bool { e.VoteB.Round++; return true })},
+		{"evidence.lca.total_voting_power", onLCA(func(e *types.LightClientAttackEvidence) bool { e.TotalVotingPower++; return true })},
+		{"evidence.lca.timestamp", onLCA(func(e *types.LightClientAttackEvidence) bool { e.Timestamp = e.Timestamp.Add(time.Nanosecond); return true })},
+		{"evidence.lca.common_height", onLCA(func(e *types.LightClientAttackEvidence) bool {
+			if e.CommonHeight < 2 {
+				return false
+			}
+			e.CommonHeight--
+			return true
+		})},
+		{"evidence.lca.byzantine.drop", onLCA(func(e *types.LightClientAttackEvidence) bool {
+			if len(e.ByzantineValidators) == 0 {
+				return false
+			}
+			e.ByzantineValidators = e.ByzantineValidators[1:]
+			return true
+		})},
+		{"evidence.lca.byzantine.clear", onLCA(func(e *types.LightClientAttackEvidence) bool {
+			if len(e.ByzantineValidators) == 0 {
+				return false
+			}
+			e.ByzantineValidators = nil
+			return true
+		})},
+		{"evidence.lca.byzantine.power", onLCA(func(e *types.LightClientAttackEvidence) bool {
+			if len(e.ByzantineValidators) == 0 {
+				return false
+			}
+			e.ByzantineValidators[0].VotingPower++
+			return true
+		})},
+		{"evidence.lca.byzantine.add", onLCA(func(e *types.LightClientAttackEvidence) bool {
+			e.ByzantineValidators = append(e.ByzantineValidators, types.NewValidator(lib.Key(41).PubKey(), 3))
+			return true
+		})},
+		{"evidence.lca.conflicting.commit.sig.timestamp", onLCA(func(e *types.LightClientAttackEvidence) bool {
+			i := firstSigned(e.ConflictingBlock.Commit)
+			if i < 0 {
+				return false
+			}
+			sig := &e.ConflictingBlock.Commit.Signatures[i]
+			sig.Timestamp = sig.Timestamp.Add(time.Nanosecond)
+			return true
+		})},
+		{"evidence.lca.conflicting.commit.sig.signature", onLCA(func(e *types.LightClientAttackEvidence) bool {
+			i := firstSigned(e.ConflictingBlock.Commit)
+			if i < 0 {
+				return false
+			}
+			sig := &e.ConflictingBlock.Commit.Signatures[i]
+			sig.Signature = flip(sig.Signature)
+			return true
+		})},
+		{"evidence.lca.conflicting.commit.round", onLCA(func(e *types.LightClientAttackEvidence) bool { e.ConflictingBlock.Commit.Round++; return true })},
+		{"evidence.lca.conflicting.header.app_hash", onLCA(func(e *types.LightClientAttackEvidence) bool {
+			e.ConflictingBlock.Header.AppHash = flip(e.ConflictingBlock.Header.AppHash)
+			return true
+		})},
+		{"evidence.lca.conflicting.valset.power", onLCA(func(e *types.LightClientAttackEvidence) bool {
+			e.ConflictingBlock.ValidatorSet.Validators[0].VotingPower++
+			return true
+		})},
+		{"evidence.lca.conflicting.valset.priority", onLCA(func(e *types.LightClientAttackEvidence) bool {
+			e.ConflictingBlock.ValidatorSet.Validators[0].ProposerPriority += 5
+			return true
+		})},
 		{"evidence.add", func(b *types.Block) bool {
 			ev := w.anyEvidence(b.Height)
 			if ev == nil {
@@ -414,6 +519,30 @@ func (w *world) blockLies(t *rapid.T, h int64) []lie {
 	return out
 }
 
+// onDV / onLCA apply f to the first piece of evidence of that kind in the block.
+func onDV(f func(e *types.DuplicateVoteEvidence) bool) func(b *types.Block) bool {
+	return func(b *types.Block) bool {
+		for _, ev := range b.Evidence.Evidence {
+			if e, ok := ev.(*types.DuplicateVoteEvidence); ok {
+				return f(e)
+			}
+		}
+		return false
+	}
+}
+
+func onLCA(f func(e *types.LightClientAttackEvidence) bool) func(b *types.Block) bool {
+	return func(b *types.Block) bool {
+		for _, ev := range b.Evidence.Evidence {
+			if e, ok := ev.(*types.LightClientAttackEvidence); ok && e.ConflictingBlock != nil && e.ConflictingBlock.SignedHeader != nil &&
+				e.ConflictingBlock.ValidatorSet != nil && len(e.ConflictingBlock.ValidatorSet.Validators) > 0 {
+				return f(e)
+			}
+		}
+		return false
+	}
+}
+
 func firstSigned(c *types.Commit) int {
 	if c == nil {
 		return -1
@@ -469,6 +598,16 @@ func blockLocalOK(handed interface{}) bool {
 func (r *lieRun) blocks() {
 	w, t := r.w, r.t
 	h := rapid.Int64Range(w.init, w.tip).Draw(t, "block.h")
+	var withEvidence []int64
+	for _, hh := range w.heights() {
+		if len(w.chain.Blocks[hh].Evidence.Evidence) > 0 {
+			withEvidence = append(withEvidence, hh)
+		}
+	}
+	if len(withEvidence) > 0 && rapid.Bool().Draw(t, "block.prefer-evidence") {
+		h = rapid.SampledFrom(withEvidence).Draw(t, "block.evidence-h")
+	}
+	lib.Class(testF, fmt.Sprintf("block-target:evidence=%d,txs=%v", len(w.chain.Blocks[h].Evidence.Evidence), len(w.chain.Blocks[h].Txs) > 0))
 	byHash := rapid.Bool().Draw(t, "block.byhash")
 	method := "Block"
 	if byHash {
@@ -488,6 +627,72 @@ func (r *lieRun) blocks() {
 			inc := w.consistentBlock(rb)
 			return verdict{inc: inc, bound: inc == nil && rb.Block.Height == h}
 		})
+	}
+}
+
+// blockSearch: every Block lie on one element of a BlockSearch answer, plus list-shape lies.
+func (r *lieRun) blockSearch() {
+	w, t := r.w, r.t
+	hs, err := newLiar(w.core).BlockSearch(bg, "block.height>0", nil, ip(100), "asc")
+	if err != nil || len(hs.Blocks) == 0 {
+		return
+	}
+	honest := jsonFull(hs)
+	j := rapid.IntRange(0, len(hs.Blocks)-1).Draw(t, "blocksearch.elem")
+	h := hs.Blocks[j].Block.Height
+	var lies []lie
+	for _, l := range w.blockLies(t, h) {
+		l := l
+		lies = append(lies, lie{"elem." + l.name, func(res interface{}) bool {
+			rs := res.(*ctypes.ResultBlockSearch)
+			if j >= len(rs.Blocks) || rs.Blocks[j] == nil {
+				return false
+			}
+			return l.f(rs.Blocks[j])
+		}})
+	}
+	lies = append(lies,
+		lie{"list.insert-nil@front", func(res interface{}) bool {
+			rs := res.(*ctypes.ResultBlockSearch)
+			rs.Blocks = insertAt(rs.Blocks, "front", nil)
+			return true
+		}},
+		lie{"list.insert-zero@end", func(res interface{}) bool {
+			rs := res.(*ctypes.ResultBlockSearch)
+			rs.Blocks = insertAt(rs.Blocks, "end", &ctypes.ResultBlock{})
+			return true
+		}},
+		lie{"list.drop(omission)", func(res interface{}) bool {
+			rs := res.(*ctypes.ResultBlockSearch)
+			rs.Blocks = append(rs.Blocks[:j:j], rs.Blocks[j+1:]...)
+			return true
+		}},
+		lie{"total_count(free)", func(res interface{}) bool { res.(*ctypes.ResultBlockSearch).TotalCount++; return true }},
+	)
+	c := w.drawVerifier(t, r.liar, "blocksearch.v")
+	for _, l := range lies {
+		r.try("BlockSearch", l, honest, func() (interface{}, error) { return c.BlockSearch(bg, "block.height>0", nil, ip(100), "asc") },
+			func(handed interface{}) bool {
+				for _, rb := range handed.(*ctypes.ResultBlockSearch).Blocks {
+					if rb == nil || !blockLocalOK(rb) {
+						return false
+					}
+				}
+				return true
+			},
+			func(ret interface{}) verdict {
+				rs := ret.(*ctypes.ResultBlockSearch)
+				for _, rb := range rs.Blocks {
+					if inc := w.consistentBlock(rb); inc != nil {
+						return verdict{inc: inc}
+					}
+				}
+				bound := len(rs.Blocks) == len(hs.Blocks)
+				for i := 0; bound && i < len(rs.Blocks); i++ {
+					bound = rs.Blocks[i].Block.Height == hs.Blocks[i].Block.Height
+				}
+				return verdict{bound: bound}
+			})
 	}
 }
 
@@ -1205,6 +1410,26 @@ func (r *lieRun) queries() {
 			p.ProofOps.Ops[0] = merkle.NewValueOp(p.Key, pr).ProofOp()
 			return true
 		}),
+		// forged value under proofs whose path is structurally impossible (the root cannot be computed), at the queried
+		// height and at the height just before the chain's first block (whose successor header carries the genesis app hash)
+		on("forge.value+impossible-proof(total=0)", func(p *abci.ResponseQuery) bool { forgeImpossible(p, s, 0, 0); return true }),
+		on("forge.value+impossible-proof(no-aunts)", func(p *abci.ResponseQuery) bool { forgeImpossible(p, s, 2, 0); return true }),
+		on("forge.value+impossible-proof(total=0)@height=init-1", func(p *abci.ResponseQuery) bool {
+			if w.init < 2 {
+				return false
+			}
+			forgeImpossible(p, s, 0, 0)
+			p.Height = w.init - 1
+			return true
+		}),
+		on("forge.value+impossible-proof(index>=total)@height=init-1", func(p *abci.ResponseQuery) bool {
+			if w.init < 2 {
+				return false
+			}
+			forgeImpossible(p, s, 1, 1)
+			p.Height = w.init - 1
+			return true
+		}),
 		on("substitute.other-key", func(p *abci.ResponseQuery) bool {
 			o := q(s, otherKey, h)
 			if otherKey == nil || o == nil {
@@ -1246,6 +1471,15 @@ func (r *lieRun) queries() {
 				return verdict{inc: inc, bound: inc == nil && bytes.Equal(rq.Response.Key, key) && rq.Response.Height == h}
 			})
 	}
+}
+
+// forgeImpossible replaces value and proof: two value operators (key in store, store in app) whose leaf hashes are
+// computed for the forged value but whose (index,total) with no aunts admit no path to any root.
+func forgeImpossible(p *abci.ResponseQuery, store string, total, index int64) {
+	p.Value = []byte("forged-value")
+	inner := &merkle.Proof{Total: total, Index: index, LeafHash: refLeafHash(refKVLeaf(p.Key, p.Value))}
+	outer := &merkle.Proof{Total: total, Index: index, LeafHash: refLeafHash(refKVLeaf([]byte(store), nil))} // the inner "root" is nil
+	p.ProofOps = &tmcrypto.ProofOps{Ops: []tmcrypto.ProofOp{merkle.NewValueOp(p.Key, inner).ProofOp(), merkle.NewValueOp([]byte(store), outer).ProofOp()}}
 }
 
 func refKVLeaf(key, value []byte) []byte {
@@ -1450,6 +1684,7 @@ func TestFalsified(t *testing.T) {
 		r := &lieRun{t: t, w: w, liar: newLiar(w.core)}
 		lib.Class(testF, w.classes()...)
 		r.blocks()
+		r.blockSearch()
 		r.blockResults()
 		r.txs()
 		r.params()
